@@ -34,7 +34,7 @@ Definition matrix_rows : list bytes :=
     B "Collection.Contains"; B "Collection.Append"; B "OrderedCollection.Contains"; B "OrderedCollection.Append";
     B "CollectionPage.Append"; B "OrderedCollectionPage.Append"; B "CollectionPage.Contains"; B "OrderedCollectionPage.Contains";
     B "ItemCollectionDeduplication"; B "OnItem"; B "Inbox.IRI"; B "Likes.Of";
-    B "Object.Equals"; B "Activity.Equals"; B "IntransitiveActivity.Equals"; B "Actor.Equals"; B "Collection.Equals";
+    B "Object.Equals"; B "Link.Equals"; B "Activity.Equals"; B "IntransitiveActivity.Equals"; B "Actor.Equals"; B "Collection.Equals";
     B "CollectionPage.Equals"; B "OrderedCollection.Equals"; B "OrderedCollectionPage.Equals"; B "ItemCollection.Equals";
     B "ItemCollection.ItemsMatch"; B "IRI.ItemsMatch"; B "Collection.ItemsMatch";
     B "OnLink"; B "OnObject"; B "OnActivity"; B "OnIntransitiveActivity"; B "OnQuestion"; B "OnActor";
